@@ -237,6 +237,30 @@ func (la *LockAnalysis) calleesOf(f *ssa.Function, site ssa.CallInstruction) []*
 		// BlockCrypt handed to Dial by the user): fall back to class hierarchy analysis
 		add(la.p.chaCG)
 	}
+	// x.(I).m() with x of interface type I0: the dynamic type implements I0 as well — drop candidates whose
+	// receiver type does not (a session's conn.(setDSCP) is a net.PacketConn, never a UDPSession or Listener)
+	if site.Common().IsInvoke() {
+		v := site.Common().Value
+		if ex, ok := v.(*ssa.Extract); ok {
+			v = ex.Tuple
+		}
+		if ta, ok := v.(*ssa.TypeAssert); ok {
+			if i0, ok := ta.X.Type().Underlying().(*types.Interface); ok && i0.NumMethods() > 0 {
+				var kept []*ssa.Function
+				for _, c := range out {
+					if c.Signature.Recv() == nil {
+						kept = append(kept, c)
+						continue
+					}
+					rt := c.Signature.Recv().Type()
+					if types.Implements(rt, i0) {
+						kept = append(kept, c)
+					}
+				}
+				out = kept
+			}
+		}
+	}
 	return out
 }
 
@@ -1493,7 +1517,7 @@ func (la *LockAnalysis) LockOrder() []LockOrderEdge {
 	var out []LockOrderEdge
 	seen := map[string]bool{}
 	add := func(e LockOrderEdge) {
-		if e.From == e.To || e.From == "?" || e.To == "?" {
+		if e.From == "?" || e.To == "?" {
 			return
 		}
 		k := e.From + ">" + e.To
@@ -1570,7 +1594,9 @@ func checkLockOrder(p *Prog, r *Report, rule string) {
 	edges := la.LockOrder()
 	succ := map[string][]string{}
 	for _, e := range edges {
-		succ[e.From] = append(succ[e.From], e.To)
+		if e.From != e.To {
+			succ[e.From] = append(succ[e.From], e.To)
+		}
 	}
 	reach := func(from, to string) bool {
 		seen := map[string]bool{}
@@ -1597,6 +1623,10 @@ func checkLockOrder(p *Prog, r *Report, rule string) {
 		via := ""
 		if e.Via != "" {
 			via = " (through " + e.Via + ")"
+		}
+		if e.From == e.To {
+			r.bad(rule, e.Fn.String(), p.PosOf(e.Pos), "lock "+e.From+" re-acquired while held", "while "+e.From+" is held the same lock is acquired again"+via+": sync mutexes are not reentrant (a read lock followed by a write lock of the same RWMutex included) — the goroutine blocks on itself for good, and with it everybody who waits for that lock", "")
+			continue
 		}
 		if reach(e.To, e.From) {
 			r.bad(rule, e.Fn.String(), p.PosOf(e.Pos), construct, "while "+e.From+" is held, "+e.To+" is acquired"+via+", and elsewhere "+e.To+" is held while "+e.From+" is acquired: two goroutines taking them in opposite orders block each other for good (with a read lock too: a waiting writer blocks new readers) — every caller blocked on either lock never wakes", "")
